@@ -262,8 +262,11 @@ NA = {}
 
 # units added after the seeded rounds (DESIGN.md section 8.5)
 EXTRA = {
+    "C08": " Fourth session: the real uniform_Bz_vector_potential and constant_field_vector_potential are executed on the pint model (symbolic unit factors and number of points): A = (B/2)(-(y - y_c), x - x_c, 0) about one common centre, numbers in field x length units independent of the unit system, circulation around any triangle of evaluation points = B x area (deciding unit for the flux clause; the formula-level lemma is kept); a transformed / copied device keeps its length units (unit shared with C18).",
+    "C13": " Fourth session: in the update() unit the state dictionary is the runner's - an entry other than step / time / dt is absent or arbitrary, so the convergence rule (error below the REQUESTED tolerance at every accepted step) cannot depend on it; native: screened run with a thermalisation stage, every update call checked.",
+    "C14": " Fourth session: frames - the real writer (save_fixed_values / save_time_step) followed by the real frame reader (TDGLData.from_hdf5, load_state_data, Solution.load_tdgl_data) over the abstract store with symbolic sizes: every field read back for frame f is what the f-th call was handed, also for ONE solution object moved from frame to frame and for a per-frame applied potential / epsilon; Mesh.from_triangulation wiring under contract (a mesh is a function of its triangulation, so the restored mesh equals the recomputed one given the kernels' own contracts).",
     "C03": " Also under contract: the operators object the solver uses - after the real MeshOperators.build_operators, for every CPU sparse-solver branch, the four "
-           "scalar operators are the stencil matrices (storage conversions / raw-buffer reinterpretation modelled) and the factorisation is of that Laplacian.",
+           "scalar operators are the stencil matrices (storage conversions / raw-buffer reinterpretation modelled) and the factorisation is of that Laplacian. Fourth session: every builder carries the frame condition 'no module-level container is written' (its result is a function of its arguments; candidate decided by the native replay on short-lived meshes sharing a triangulation), and Mesh.smooth is under contract over its result (see C07).",
     "C06": " Which sites are pinned: the real Device.terminal_info, executed over the free term algebra of the device state, returns the boundary sites inside each "
            "CURRENT terminal of the CURRENT mesh after any history of calls (re-meshing, in-place terminal edits); the constructor clause is decided in the __init__ unit (C06.init.*).",
     "C07": " The real generate_mesh (wrapper around Triangle) is under contract with a stub mesher whose output is symbolic: every return path hands back the last triangulation moved "
@@ -275,12 +278,12 @@ EXTRA = {
            "scipy.sparse (A4) and the preconditions 'consistently oriented triangulation', 'every edge is a side of one or two triangles'.",
     "C09": " Syntactic contract over the numerical core: no loop, comprehension or order-exposing conversion iterates over a hash-ordered set (candidates are replayed with different PYTHONHASHSEED values).",
     "C12": " The constructor (with and without a seed solution) is under contract for the initial step and the step cap.",
-    "C16": " Operand kinds include parameters made by closure factories (equal under ==, different values).",
+    "C16": " Operand kinds include parameters made by closure factories (equal under ==, different values). tdgl.sources.scaling (linear_ramp piecewise definition, LinearRamp / Scale build time-dependent parameters carrying their arguments) is under contract.",
     "C17": " The stencil is also compared after a refresh with the same zero potential (the screening loop refreshes at every iteration).",
-    "C18": " After an in-place change (transform or vertex assignment) membership queries and the derived shape are built from the vertices stored now (identity-level candidates, replayed natively).",
+    "C18": " After an in-place change (transform or vertex assignment) membership queries and the derived shape are built from the vertices stored now (identity-level candidates, replayed natively). Fourth session: Device.rotate / scale / translate / copy are stated over the RESULT (every polygon mapped exactly once with the given parameters, receiver untouched, nothing shared, probe points through the same map, name / layer / length units kept) whatever way the device is assembled; tdgl.geometry.close_curve / ensure_unique / rotate are under contract (rotate incl. the rigidity lemmas); the bounded family includes non-convex shapes and a notch case.",
     "C19": " The seed guard's premise is under contract: the real Solution.__init__ records a copy of the device made at construction (sharing the mesh).",
     "C20": " The public wrapper biot_savart_2d is under a call contract with dtype kinds (integer coordinates, real scalar height, unit factors), and current_loop_vector_potential is proved to be the "
-           "documented closed form of the position relative to the loop centre (transcendental functions uninterpreted), linear in the current, translation covariant; equality with the line integral is bounded quadrature.",
+           "documented closed form of the position relative to the loop centre (transcendental functions uninterpreted), linear in the current, translation covariant; equality with the line integral is bounded quadrature. Fourth session: harness objects are built through the real Solution constructor; history obligations - after the solution's sheet currents changed, fields and potentials are those of the currents it holds now (symbolic units, call contract and native moved-frame cases); tdgl.sources.loop under a call contract (arguments by name, result in the user's field x length units).",
 }
 for _k, _v in EXTRA.items():
     CLAIMS[_k]["text"] = CLAIMS[_k]["text"] + _v
